@@ -46,7 +46,12 @@ def value(rng, fmt):
     if fmt in SIGNED:
         top = 256 ** SIGNED[fmt] // 2 - 1
         return rng.choice([0, -1, top, -top - 1, rng.randint(-top - 1, top), rng.randint(-top - 1, top)])
-    if fmt == "x":          # fixed point, 1e-5: multiples of 1/32 are exact both in binary and in 1e-5
+    if fmt == "x":          # fixed point, 1e-5: multiples of 1/32 are exact both in binary and in 1e-5 ...
+        if rng.random() < 0.4:
+            # ... and decimals whose float product with 100000 falls just below the integer (0.29, 0.57, 1.15):
+            # a conversion that truncates instead of rounding is wrong exactly on these
+            from .mapdecl import TRICKY_FIXED
+            return rng.choice(TRICKY_FIXED) / 100000
         return rng.randint(-2 ** 30, 2 ** 30) / 32
     if fmt == "f":          # exact in binary32
         return rng.randint(-2 ** 20, 2 ** 20) / 8
